@@ -12,6 +12,7 @@ from .core import (EXC, NOTIMPL, EnumVal, ExcClass, ExcVal, Gen, Instance, Opaqu
                    zbool, zint, zreal)
 from .model import (BoundMethod, Builtin, ClassMethod, ClassModel, Env, FunctionModel,
                     ModuleModel, Partial, PropertyModel, StaticMethod)
+from .libmodels import LINSPACE_MAX_NUM, linspace_int
 from .seqs import CSet, GenList, Part, SRange
 
 PRELUDE = '''
@@ -243,8 +244,56 @@ class LibMixin:
         self.stub_modules['gym.utils'] = gu
         self.stub_modules['gym.utils.seeding'] = seeding
         pk = ModuleModel('pickle')
-        pk.opaque = True
+        pk.ns['dumps'] = Builtin('pickle.dumps', self.pickle_dumps)
+        pk.ns['loads'] = Builtin('pickle.loads', self.pickle_loads)
+        pk.ns['HIGHEST_PROTOCOL'] = 5
+        pk.ns['DEFAULT_PROTOCOL'] = 4
         self.stub_modules['pickle'] = pk
+
+    # ----------------------------------------------------------------- pickle (T3)
+    # pickle.loads(pickle.dumps(x)) of plain instances, lists, tuples, dicts, numbers and enum members is a deep
+    # copy of the instance dictionaries (private attributes included) that preserves sharing inside x and shares
+    # nothing mutable with x; enum members stay the same singletons.  Classes that customise pickling
+    # (__reduce__, __getstate__, __setstate__, __getnewargs__, __slots__) are outside the model.
+    PICKLE_HOOKS = ('__reduce__', '__reduce_ex__', '__getstate__', '__setstate__', '__getnewargs__',
+                    '__getnewargs_ex__', '__slots__', '__copy__', '__deepcopy__')
+
+    def pickle_check(self, v, seen):
+        if id(v) in seen:
+            return
+        seen.add(id(v))
+        if isinstance(v, Instance):
+            c = v.cls
+            for kls in c.mro():
+                for hname in self.PICKLE_HOOKS:
+                    if hname in kls.ns:
+                        raise Unsupported(f'pickle of {c.name}: class customises pickling with {hname}')
+            for x in v.fields.values():
+                self.pickle_check(x, seen)
+        elif isinstance(v, (list, tuple)):
+            for x in v:
+                self.pickle_check(x, seen)
+        elif isinstance(v, dict):
+            for x in v.values():
+                self.pickle_check(x, seen)
+        elif isinstance(v, (SList, SObj, EnumVal, SArr, str, int, float, bool)) or v is None or is_z3(v):
+            return
+        else:
+            raise Unsupported('pickle of ' + type(v).__name__)
+
+    def pickle_dumps(self, I, a, k):
+        from .verify import snapshot
+        self.pickle_check(a[0], set())
+        tok = Opaque('pickled bytes')
+        tok.pickled = snapshot(self, a[0])
+        return tok
+
+    def pickle_loads(self, I, a, k):
+        from .verify import snapshot
+        tok = a[0]
+        if not (isinstance(tok, Opaque) and hasattr(tok, 'pickled')):
+            raise Unsupported('pickle.loads of bytes that do not come from pickle.dumps')
+        return snapshot(self, tok.pickled)
 
     # ----------------------------------------------------------------- builtins
     def bi_len(self, I, a, k):
@@ -400,6 +449,12 @@ class LibMixin:
             return c
         if isinstance(v, RowView):
             return self.row_snapshot(v.parent, v.i)
+        if isinstance(v, SRange):
+            lo, hi = zint(v.lo), zint(v.hi)
+            n = concretize(z3.If(hi > lo, hi - lo, z3.IntVal(0)))
+            if isinstance(n, int):
+                return [concretize(lo + i) for i in range(n)]
+            return SList(n, lambda i: concretize(lo + zint(i)))
         if isinstance(v, GenList):
             return GenList(v.gen)
         if isinstance(v, SSet):
@@ -765,6 +820,15 @@ class LibMixin:
                 r = self._hash_pair(r, zint(self.hash_of(x)))
             return r
         if isinstance(v, (SObj, Instance)):
+            if isinstance(v, SObj) and self.pure_depth == 0:
+                # per-class dispatch of a symbolic grid object: merge the cases instead of forking the path
+                from .interp import DEAD, MergeFail
+                try:
+                    h = self.pure(lambda: self.call_dunder(v, '__hash__', [], missing_ok=True))
+                    if h is not DEAD and h is not NOTIMPL:
+                        return h
+                except MergeFail:
+                    pass
             h = self.call_dunder(v, '__hash__', [], missing_ok=True)
             if h is NOTIMPL:
                 if isinstance(v, Instance) and v.cls.is_dataclass:
@@ -772,14 +836,33 @@ class LibMixin:
                     return self.hash_of(tuple(v.fields[n] for n, _ in v.cls.dc_fields))
                 raise Unsupported('identity hash')
             return h
+        if isinstance(v, RowView):
+            # a row of a 2-D tuple view (tuple(map(tuple, rows)) keeps its rows as views)
+            v = self.row_snapshot(v.parent, v.i)
+            v.is_tuple = True
         if isinstance(v, SList) and v.is_tuple:
-            raise Unsupported('hash of symbolic tuple')
+            # tuple of symbolic length: hash_seq(length, array of the element hashes, zero beyond the length);
+            # two such tuples with equal lengths and pointwise equal element hashes get equal arrays
+            # (extensionality), nothing else is known about the value
+            n = v.n
+            if isinstance(n, int):
+                return self.hash_of(tuple(self.getitem(v, i) for i in range(n)))
+            if not hasattr(self, '_hash_seq'):
+                self._hash_seq = z3.Function('hash_seq', z3.IntSort(), z3.ArraySort(z3.IntSort(), z3.IntSort()), z3.IntSort())
+            i = self.fresh_int('hi')
+            guard = z3.And(i >= 0, i < zint(n))
+            from .interp import DEAD
+            eh = self.pure(lambda: zint(self.hash_of(self.getitem(v, i))), guard)
+            if eh is DEAD:
+                eh = z3.IntVal(0)
+            arr = z3.Lambda([i], z3.If(guard, zint(eh), z3.IntVal(0)))
+            return self._hash_seq(zint(n), arr)
         raise Unsupported('hash of ' + type(v).__name__)
 
     # -------------------------------------------------------------------- numpy
     def np_linspace(self, I, a, k):
-        """np.linspace(start, stop, num, dtype=int) with concrete num: floor(start + i*(stop-start)/(num-1))
-        (T3; compared with numpy for stop in 0..400, num up to 12 by the bounded item `libmodels`)"""
+        """np.linspace(start, stop, num, dtype=int) with concrete num <= 6:
+        floor((start*(num-1) + i*(stop-start)) / (num-1)), see libmodels.linspace_int (T3, T7)"""
         start, stop = a[0], a[1]
         num = concretize(k.get('num', a[2] if len(a) > 2 else 50))
         dtype = k.get('dtype')
@@ -789,15 +872,9 @@ class LibMixin:
             raise Unsupported('np.linspace with a symbolic number of samples')
         if num < 0:
             py_raise('ValueError', 'Number of samples must be non-negative')
-        if num == 0:
-            return self.new_list([])
-        if num == 1:
-            return self.new_list([start])
-        span = self.arith(ast.Sub, stop, start)
-        out = []
-        for i in range(num):
-            out.append(self.arith(ast.Add, start, self.arith(ast.FloorDiv, self.arith(ast.Mult, i, span), num - 1)))
-        return self.new_list(out)
+        if num > LINSPACE_MAX_NUM:
+            raise Unsupported(f'np.linspace with more than {LINSPACE_MAX_NUM} samples (float rounding is not modelled)')
+        return self.new_list(linspace_int(start, stop, num, self.arith))
 
     def np_array(self, I, a, k):
         """np.array(nested lists[, dtype]): kept as the nested list itself (element access only)"""
@@ -861,6 +938,8 @@ class LibMixin:
             n = a[0]
             size = k.get('size', a[1] if len(a) > 1 else None)
             replace = k.get('replace', True)
+            if not isinstance(replace, bool):
+                replace = self.branch(zbool(replace))
             data = None
             if not is_intlike(n):
                 data = n
@@ -935,7 +1014,41 @@ class LibMixin:
             return v
 
         def shuffle(I, a, k):
-            raise Unsupported('rng.shuffle')
+            # in-place permutation of a list: any bijection of the index range is a possible outcome
+            x = a[0]
+            self.note_effect('draw', rng)
+            if isinstance(x, list):
+                m = len(x)
+                idx = [self.fresh_int('perm') for _ in range(m)]
+                for i in idx:
+                    self.assume(z3.And(i >= 0, i < m))
+                if m > 1:
+                    self.assume(z3.Distinct(*idx))
+                src = list(x)
+                new = [self.getitem(src, i) for i in idx] if m > 1 else src
+                self.check_write(x)
+                x[:] = new
+                rng.draws.append(('shuffle', idx, m))
+                return None
+            if isinstance(x, SList) and not x.is_tuple:
+                self.check_write(x)
+                src = x.frozen_copy()
+                zn = zint(x.n)
+                PI = z3.Function(self.fresh_name('perm'), z3.IntSort(), z3.IntSort())
+                INV = z3.Function(self.fresh_name('perminv'), z3.IntSort(), z3.IntSort())
+                t = z3.Int(self.fresh_name('t'))
+                self.assume(z3.ForAll([t], z3.Implies(z3.And(t >= 0, t < zn), z3.And(
+                    PI(t) >= 0, PI(t) < zn, INV(PI(t)) == t)), patterns=[PI(t)]))
+                self.assume(z3.ForAll([t], z3.Implies(z3.And(t >= 0, t < zn), z3.And(
+                    INV(t) >= 0, INV(t) < zn, PI(INV(t)) == t)), patterns=[INV(t)]))
+                x.elem = lambda i: self.slist_read(src, PI(zint(i)))
+                x.writes = []
+                x.cellwrites = []
+                x.version += 1
+                rng.draws.append(('shuffle_fn', PI, x.n))
+                rng.perm_inverse = getattr(rng, 'perm_inverse', []) + [INV]
+                return None
+            raise Unsupported('rng.shuffle of ' + type(x).__name__)
 
         def random(I, a, k):
             self.note_effect('draw', rng)
